@@ -3,6 +3,17 @@ From Coq Require Export QArith ZArith NArith List Bool Lia Lqa.
 Export ListNotations.
 Open Scope Q_scope.
 
+(* keep [simpl] from unfolding rational arithmetic *)
+Arguments Qred : simpl never.
+Arguments Qplus : simpl never.
+Arguments Qmult : simpl never.
+Arguments Qminus : simpl never.
+Arguments Qopp : simpl never.
+Arguments Qdiv : simpl never.
+Arguments Qinv : simpl never.
+Arguments Qle_bool : simpl never.
+Arguments Qeq_bool : simpl never.
+
 Definition qeqb (a b : Q) : bool := Qeq_bool a b.
 Definition qleb (a b : Q) : bool := Qle_bool a b.
 Definition qltb (a b : Q) : bool := negb (Qle_bool b a).
